@@ -466,8 +466,9 @@ def _dominated_by_oversize(C, fn, sp, w, nd):
     return not any('S+' in w.kinds(fn, x[0]) for x in tail if x != nd)
 
 
-def check_store_pairing(run, ctx):
-    """C04-P4 store subset of queue: a completed store leaves the key in both or in neither"""
+def check_store_pairing(run, ctx, rule='C04-P4'):
+    """C04-P4 / C07-S3 store subset of queue: a completed store leaves the key in the store and (re-)appends it at the
+    store end of the queue on every path (a re-store therefore moves the key to the back)"""
     rows, anchors = store_rows(ctx)
     n = 0
     for r in rows:
@@ -479,13 +480,13 @@ def check_store_pairing(run, ctx):
             d = _vec(v)
             n += 1
             if (d['S+'] >= 1) != (d['Q>'] >= 1):
-                run.bad('C04-P4', key + '/unpaired', '%s stores the key in the %s but not in the %s on some path (%s)' % (
+                run.bad(rule, key + '/unpaired', '%s stores the key in the %s but not in the %s on some path (%s)' % (
                     r['fn'].name, 'map' if d['S+'] else 'queue', 'queue' if d['S+'] else 'map', describe(a)), site=r['fn'].name,
-                    oracle='every store path inserts the key into the store and appends it to the queue')
+                    oracle='every store path inserts the key into the store and appends it to the queue (a re-store moves it to the back)')
             elif d['Q<']:
                 run.bad('C07-S1', key + '/push-front', '%s pushes the new key to the front of the queue (%s)' % (r['fn'].name, describe(a)), site=r['fn'].name)
             else:
-                run.ok('C04-P4', '%s/%s' % (key, describe(a)), 'S+ and Q> together')
+                run.ok(rule, '%s/%s' % (key, describe(a)), 'S+ and Q> together')
     return n, anchors
 
 
